@@ -268,6 +268,31 @@ class Monitor:
 
 MON = Monitor()
 
+# everything that is a non-termination witness: our own monitors and the zlib stand-in's no-progress signal
+NONTERMINATION = (Unbounded, codec.ZlibNoProgress)
+
+
+@contextlib.contextmanager
+def watchdog(seconds, what='decoding'):
+    """wall-clock guard for CONCRETE executions of the real code (real zlib on concrete corruptions, every concrete replay): a
+    synchronous loop that never ends would freeze the event loop - here it becomes Unbounded after `seconds`.  (Exploration of
+    symbolic data is guarded by the counting monitors instead: solver time is not bounded by a few seconds.)"""
+    import signal
+    import threading
+    if not hasattr(signal, 'setitimer') or threading.current_thread() is not threading.main_thread():
+        yield
+        return
+
+    def fire(signum, frame):
+        raise Unbounded(f'watchdog: {what} still running after {seconds} s')
+    old = signal.signal(signal.SIGALRM, fire)
+    signal.setitimer(signal.ITIMER_REAL, seconds)
+    try:
+        yield
+    finally:
+        signal.setitimer(signal.ITIMER_REAL, 0)
+        signal.signal(signal.SIGALRM, old)
+
 
 def monitored_range(*a):
     a = tuple(x.v if isinstance(x, Box) else x for x in a)
@@ -431,4 +456,6 @@ STUBS = [
     'range in aioslsk.protocol.primitives -> counting range (engine.c02env.monitored_range): same values; symbolic count forks lazily '
     'per iteration; raises Unbounded when an array loop outlives the derived bound (kept in concrete replay as a pure monitor)',
     'logging disabled (engine/cli.py)',
+    'SIGALRM watchdog (signal.setitimer) around concrete executions of the real decoder / reader (real-zlib corruption jobs and every concrete '
+    'replay): a hang becomes a parse_terminates refutation',
 ]
